@@ -151,7 +151,7 @@ Proof.
   - left. split; auto. destruct p as [x|]; [destruct (multiline && (x =? 10)); [|discriminate]|]; eauto.
   - left. split; auto. destruct rest as [|x t]; [eauto|].
     destruct ((x =? 10) && (multiline || match t with [] => true | _ => false end)); [eauto|discriminate].
-  - left. split; auto. destruct (xorb neg _); [eauto|discriminate].
+  - left. split; auto. destruct (_ && xorb neg _); [eauto|discriminate].
 Qed.
 
 (* a pattern that cannot match the empty string matches only where the subject continues with a first character *)
@@ -291,7 +291,7 @@ Proof.
   - split; auto. destruct p as [x|]; [destruct (multiline && (x =? 10)); [|discriminate]|]; eauto 10.
   - split; auto. destruct rest as [|x t]; [eauto 10|].
     destruct ((x =? 10) && (multiline || match t with [] => true | _ => false end)); [eauto 10|discriminate].
-  - split; auto. destruct (xorb neg _); [eauto 10|discriminate].
+  - split; auto. destruct (_ && xorb neg _); [eauto 10|discriminate].
 Qed.
 
 (* a pattern that cannot match inside A* has no match in any text over A *)
